@@ -78,6 +78,24 @@ namespace BitSerializer::Convert::Detail
 	}
 
 	/// <summary>
+	/// Checks whether the text after an integer literal continues it as a floating point number (fraction like ".5" or exponent like "e+5").
+	/// </summary>
+	template <typename TSym>
+	bool IsContinuedAsFloatNumber(const TSym* pos, const TSym* end) noexcept
+	{
+		const auto isDigit = [](TSym sym) { return sym >= '0' && sym <= '9'; };
+		if (end - pos >= 2 && *pos == '.' && isDigit(pos[1])) {
+			return true;
+		}
+		if (end - pos >= 2 && (*pos == 'e' || *pos == 'E'))
+		{
+			const bool hasSign = pos[1] == '+' || pos[1] == '-';
+			return hasSign ? (end - pos >= 3 && isDigit(pos[2])) : isDigit(pos[1]);
+		}
+		return false;
+	}
+
+	/// <summary>
 	/// Converts any UTF string to integer or floating types (except compatibility mode).
 	/// </summary>
 	template <typename T, typename TSym, std::enable_if_t<(std::is_integral_v<T>
@@ -109,7 +127,7 @@ namespace BitSerializer::Convert::Detail
 			// Check that string does not contain decimal fractions (parsing a float number to integer is not allowed)
 			if constexpr (std::is_integral_v<T>)
 			{
-				if (rc.ptr + 1 < str.data() + str.size() && *rc.ptr == '.' && std::isdigit(*(rc.ptr + 1)))
+				if (IsContinuedAsFloatNumber(rc.ptr, str.data() + str.size()))
 				{
 					throw std::invalid_argument("Unable to convert string with float number to integer");
 				}
@@ -143,6 +161,11 @@ namespace BitSerializer::Convert::Detail
 		{
 			if (std::isdigit(*startIt))
 			{
+				// Parsing a float number to boolean is not allowed
+				if (IsContinuedAsFloatNumber(startIt + 1, endIt)) {
+					throw std::invalid_argument("Unable to convert string with float number to boolean");
+				}
+
 				if (*startIt == '1' && (size == 1 || !std::isdigit(startIt[1])))
 				{
 					ret_Val = true;
